@@ -16,5 +16,6 @@ echo "== demo WITHOUT patch"; cargo nextest run $CFG -p $CRATE --offline --no-fa
 git apply --whitespace=nowarn $D/patch.diff || { echo "patch.diff does not apply"; exit 2; }
 touch crates/$CRATE/src/lib.rs
 echo "== demo WITH patch"; cargo nextest run $CFG -p $CRATE --offline --no-fail-fast --retries 0 -E "test(/$FILTER/)" 2>&1 | grep -E "PASS|FAIL|Summary|error" | tail -8
-echo "== existing suite WITH patch (demo excluded)"; cargo nextest run $CFG -p $CRATE --offline --no-fail-fast --retries 0 -E "not test(/$FILTER/)" 2>&1 | grep -E "^\s+FAIL|Summary|error\[" | sort | uniq | tail -12
+# SUITE_FLAGS: e.g. "-j 2 --retries 1" for the crates whose black-box tests time out under load (BASELINE.json notes them)
+echo "== existing suite WITH patch (demo excluded)"; cargo nextest run $CFG -p $CRATE --offline --no-fail-fast ${SUITE_FLAGS:---retries 0} -E "not test(/$FILTER/)" 2>&1 | grep -E "^\s+FAIL|Summary|error\[" | sort | uniq | tail -12
 git checkout -- . && git clean -fdq
